@@ -2,6 +2,7 @@ package main
 
 import (
 	"fmt"
+	"go/types"
 
 	"golang.org/x/tools/go/ssa"
 )
@@ -64,8 +65,16 @@ func ruleStagingAppliesEdit(p *Prog, r *Report, rule string) {
 		}
 	}
 	if fn := resolveFn(p, r, "leveldb", "(*versionStaging).finish"); fn != nil {
+		// membership in a set kept as a map: `_, ok := m[k]` (any value type) or, for a bool-valued
+		// map whose entries are only ever true, the looked-up value itself
 		lookupOK := func(field string) VMatch {
 			return func(v ssa.Value) bool {
+				if l, ok := v.(*ssa.Lookup); ok && !l.CommaOk {
+					if bt, isB := l.Type().Underlying().(*types.Basic); isB && bt.Kind() == types.Bool {
+						return isFieldLoadOrField(l.X, tSc, field)
+					}
+					return false
+				}
 				ex, ok := v.(*ssa.Extract)
 				if !ok || ex.Index != 1 {
 					return false
@@ -90,7 +99,7 @@ func ruleStagingAppliesEdit(p *Prog, r *Report, rule string) {
 		}
 		firstLookup0 := func(in ssa.Instruction) bool {
 			l, ok := in.(*ssa.Lookup)
-			return ok && l.CommaOk && isFieldLoadOrField(l.X, tSc, "deleted")
+			return ok && isFieldLoadOrField(l.X, tSc, "deleted")
 		}
 		_ = anyLookup
 		if countInstr(fn, keep) >= 1 {
@@ -98,7 +107,7 @@ func ruleStagingAppliesEdit(p *Prog, r *Report, rule string) {
 			// converse: an untouched base table IS kept (before the next base table is examined)
 			firstLookup := func(in ssa.Instruction) bool {
 				l, ok := in.(*ssa.Lookup)
-				return ok && l.CommaOk && isFieldLoadOrField(l.X, tSc, "deleted")
+				return ok && isFieldLoadOrField(l.X, tSc, "deleted")
 			}
 			checkGuardExact(p, r, GuardSpec{Rule: "untouched-base-table-kept", Fn: fn, Starts: after(fn, firstLookup), Target: keep, TargetDesc: "the base table is carried over", Atoms: []Atom{inDel, inAdd}, G: func(a []bool) bool { return !a[0] && !a[1] }, GDesc: "¬deleted[num] ∧ ¬added[num]"}, orPred(firstLookup, evCall("leveldb.tableFileFromRecord"), isReturn), "the next table / the additions / return")
 		} else {
